@@ -368,6 +368,8 @@ func jsFull(v any) string {
 // ---------------------------------------------------------------- the oracle (independent of the engine)
 
 type oracle struct {
+	// rounds first seen in the round store while their height's validator set was undetermined
+	filedEarly map[hr]struct{}
 	w *vc.World
 	// first hash ever seen committed per height (from the store and from SaveCommittedHeader calls)
 	committed map[uint64]string
@@ -694,6 +696,7 @@ func (o *oracle) evaluate(r *rig, k *tmi.VerifKState, prev *tmi.VerifKState, sit
 			continue
 		}
 		vsID := o.chainVS(x.H)
+		suffix := ""
 		if vsID == "" {
 			// a future height whose set is not determined yet: the votes were verified against the
 			// set named by the message; they must at least verify under that set
@@ -701,9 +704,16 @@ func (o *oracle) evaluate(r *rig, k *tmi.VerifKState, prev *tmi.VerifKState, sit
 			if len(pv.BlockSignatures) == 0 {
 				vsID = w.PKHID(string(pc.PubKeyHash))
 			}
+			if o.filedEarly == nil {
+				o.filedEarly = map[hr]struct{}{}
+			}
+			o.filedEarly[x] = struct{}{}
+		} else if _, early := o.filedEarly[x]; early {
+			// filed while the height's validator set was still undetermined
+			suffix = ":filed-before-set-known"
 		}
-		o.checkSparse("roundStore.prevotes", "prevote", x.H, x.R, vsID, pv.BlockSignatures, site, out)
-		o.checkSparse("roundStore.precommits", "precommit", x.H, x.R, vsID, pc.BlockSignatures, site, out)
+		o.checkSparse("roundStore.prevotes"+suffix, "prevote", x.H, x.R, vsID, pv.BlockSignatures, site, out)
+		o.checkSparse("roundStore.precommits"+suffix, "precommit", x.H, x.R, vsID, pc.BlockSignatures, site, out)
 		for hash, sigs := range pv.BlockSignatures {
 			if len(sigs) == 0 {
 				*out = append(*out, viol{"C05", "AllFiledAuthentic", site, "roundStore.emptyEntry",
@@ -1000,6 +1010,22 @@ func callRecover(f func()) (panicked string) {
 func (rn *runner) runBehaviour(b behaviour) {
 	w := rn.w
 	stores := newRecStores(w.HashScheme)
+	for id, d := range w.Def.Valsets {
+		if d.Stored {
+			vs := w.Valsets[id]
+			keys := make([]gcrypto.PubKey, len(vs.Validators))
+			pows := make([]uint64, len(vs.Validators))
+			for i, v := range vs.Validators {
+				keys[i], pows[i] = v.PubKey, v.Power
+			}
+			f := func(m *memStores) {
+				_, _ = m.vs.SavePubKeys(context.Background(), keys)
+				_, _ = m.vs.SaveVotePowers(context.Background(), pows)
+			}
+			f(stores.cur)
+			stores.base = append(stores.base, f)
+		}
+	}
 	r := newRig(w, stores)
 	o := newOracle(w)
 	defer func() { r.stop() }()
